@@ -12,10 +12,12 @@ PipeAll == <<"hls", "hook", "recflv", "rects", "ts">>
 CONSTANT PipeComps
 
 Trace == ndJsonDeserialize(IOEnv.TRACE)
-VARIABLES l, failed
-tvars == <<vars, l, failed>>
+VARIABLES l, failed,
+          npub      \* (trace only) media frames the accepted input has published since it was accepted: every Probe of the
+                    \* accepted input is one AAC frame
+tvars == <<vars, l, failed, npub>>
 
-TraceInit == Init /\ l = 1 /\ failed = FALSE /\ TLCSet(1, 1)
+TraceInit == Init /\ l = 1 /\ failed = FALSE /\ npub = 0 /\ TLCSet(1, 1)
 
 TraceReset ==
   /\ l <= Len(Trace) /\ Trace[l].ev = "reset" /\ l' = l + 1
@@ -26,7 +28,7 @@ TraceReset ==
   /\ push' = [t \in PushTargets |-> PIdle] /\ patt' = 0
   /\ idl' = [x \in Sessions |-> "new"] /\ nsweeps' = 0
   /\ pl' = [x \in Players |-> PlIdle]
-  /\ failed' = FALSE
+  /\ failed' = FALSE /\ npub' = 0
 
 PushRest == patt' = patt /\ UNCHANGED <<grp, inp, owner, ss, closed, nh, pull, clock, nticks>>
 IsPushEv(n) == n \in {"PushOk", "PushFail", "PushEnd"}
@@ -57,6 +59,7 @@ Do(name, e) ==
     [] name = "PullFail"  -> PullFail
     [] name = "PullEnd"   -> PullEnd
     [] name = "Advance"   -> Advance
+    [] name = "ProbePull" -> ProbePull
     [] name = "Shutdown"  -> Shutdown
     [] name = "PushOk"    -> PushOk(e.x) /\ PushRest
     [] name = "PushFail"  -> PushFail(e.x) /\ PushRest
@@ -74,8 +77,10 @@ SeqSet(q) == {q[k] : k \in 1..Len(q)}
 TraceStep ==
   /\ l <= Len(Trace) /\ Trace[l].ev \notin {"reset", "Leak", "Died"} /\ l' = l + 1
   /\ LET e == Trace[l] IN
-     IF failed THEN UNCHANGED vars /\ failed' = failed
+     IF failed THEN UNCHANGED vars /\ failed' = failed /\ npub' = npub
      ELSE /\ Do(e.ev, e)
+          /\ npub' = IF owner' # owner THEN 0
+                     ELSE IF (e.ev = "Probe" /\ inp = e.x) \/ e.ev = "ProbePull" THEN npub + 1 ELSE npub
           /\ (e.ev # "Shutdown" => down' = down)
           /\ ((~IsPushEv(e.ev) /\ ~IsPlayerEv(e.ev) /\ e.ev \notin {"Shutdown", "Sweep"}) => (PushFx /\ IdlFx /\ PlayFx /\ nsweeps' = nsweeps))
           /\ ((IsPushEv(e.ev) \/ e.ev = "Shutdown") => UNCHANGED <<idl, nsweeps, pl>>)
@@ -84,6 +89,13 @@ TraceStep ==
           /\ LET good == /\ act'.obs = e.obs
                          /\ ("pipe" \in DOMAIN e => e.pipe = (IF owner' = "" THEN <<>> ELSE PipeComps))
                          /\ ("filesOk" \in DOMAIN e => e.filesOk)
+                         \* C16: when the input ends, every frame it published is in the TS recording, in the HLS segments and in
+                         \* the FLV recording of that publication (also when it ends inside the remuxer's probing stage)
+                         /\ (("media" \in DOMAIN e /\ owner # "" /\ owner' = "") =>
+                                /\ e.media.ts = npub /\ e.media.flv = npub
+                                \* (lal opens an HLS fragment at a video key frame once the stream has announced video: the pull
+                                \*  from an RTSP origin did - the SDP became a video header - and the probes carry audio only)
+                                /\ ((owner = "pull" /\ PullHdrMsgs > 0) \/ e.media.hls = npub))
                          /\ ("pa" \in DOMAIN e => e.pa = patt' /\ e.pn = NAtt(push'))   \* push attempts seen / sessions attached
                          /\ ("orph" \in DOMAIN e => e.orph = 0)   \* connections orphaned by the removal of the group are closed when they complete
                          /\ ("plen" \in DOMAIN e => e.plen = act'.plen)                   \* URL parameters forwarded in full
@@ -103,13 +115,13 @@ TraceLeak ==
   /\ l <= Len(Trace) /\ Trace[l].ev = "Leak" /\ l' = l + 1
   /\ LET e == Trace[l]
          good == e.g2 - e.g1 <= 2 /\ e.fd2 - e.fd1 <= 2 /\ e.n2 > e.n1
-     IN /\ failed' = failed /\ UNCHANGED vars
+     IN /\ failed' = failed /\ UNCHANGED <<vars, npub>>
         /\ IF good THEN TRUE ELSE PrintT("@REJ@" \o ToString(l))
 
 \* the process serving the scenario died (a panic in a goroutine lal owns): no behaviour of the model
 TraceDied ==
   /\ l <= Len(Trace) /\ Trace[l].ev = "Died" /\ l' = l + 1
-  /\ failed' = TRUE /\ UNCHANGED vars
+  /\ failed' = TRUE /\ UNCHANGED <<vars, npub>>
   /\ PrintT("@REJ@" \o ToString(l))
 
 TraceNext == TraceReset \/ TraceStep \/ TraceLeak \/ TraceDied
